@@ -112,6 +112,22 @@ CLAIMED = {
         "Trusts the class model's name tables (pv/cg.py) and the independent rename renderer; the python-name-as-key cell is unspecified.",
         "DESIGN.md section 5, C15",
     ),
+    'C16': (
+        "exhaustive enumeration of the 96-point option cube + Hypothesis over per-field flags and instance triples; differential oracle against dataclasses.dataclass for the hash rule table, algebraic laws for ==/order/hash, model oracle for frozen/copy/replace/repr",
+        "Every (eq, order, frozen, unsafe_hash, explicit __hash__, user __eq__) point is built both as a pane dataclass and as a standard "
+        "dataclass and must land in the same hash category; equality/ordering are checked against the compare-fields model (reflexive, symmetric, "
+        "transitive on triples, lexicographic, trichotomy, eq implies equal hash); frozen, copy, deepcopy, __replace__ and repr are checked against the model.",
+        "Trusts the standard library's dataclass hash table as the reference. Field values are totally ordered and NaN-free.",
+        "DESIGN.md section 5, C16",
+    ),
+    'C17': (
+        "Hypothesis generation of class-hierarchy programs (grammar over levels, overrides, KW_ONLY, options, generic binding/forwarding/permutation/re-declaration); hierarchy model oracle on signature, parameters, field order, substituted-type enforcement, option inheritance",
+        "Programs of depth 1-4 are executed with types.new_class; at every level __parameters__ and inspect.signature (names, kinds, annotations "
+        "after normalisation, defaults) must equal the model, ill-formed programs must be refused with TypeError; the subscripted leaf must "
+        "enforce substituted field types (accept one instantiation's values, refuse another's) and inherit in_format, rename, allow_extra, kw_only, frozen and class-level custom handlers from the nearest definition.",
+        "Trusts the hierarchy model in pv/props/c17.py (substitution on a small type AST). Single-inheritance chains only.",
+        "DESIGN.md section 5, C17",
+    ),
     'C20': (
         "exhaustive enumeration of a finite name set + Hypothesis search, against an independent canonical renderer",
         "Every 1-3 word name over a 3-letter alphabet (47 988 names) is swept exhaustively through all 5 styles and all 25 style "
